@@ -94,4 +94,21 @@ def prefixCheck (bytes : List UInt8) : PrefixCheck :=
   else if (4 + Bitpack.leNat (bytes.take 4)) % 2 ^ 32 > bytes.length then .lengthExceedsInput
   else .accepted (Bitpack.leNat (bytes.take 4))
 
+/-! ### before F80 (fixes/F80-rle-decoder-bit-width.patch): no check of the declared bit width -/
+
+/-- a shift of a 32-bit value by 32 bits or more is undefined behaviour in C -/
+inductive Fault
+  | shiftTooLarge (bits : Nat)
+  deriving DecidableEq, Repr
+
+/-- pinned `carquet_rle_decoder_init`: any width is accepted, the status is OK -/
+def initPreF80 (w : Nat) (data : List UInt8) : Dec := ⟨w, data, false, 0, 0, [], .ok⟩
+
+/-- pinned run-value loop of `start_new_run` and of `carquet_rle_decode_levels`:
+`for (i = 0; i < value_bytes; i++) rle_value |= (uint32_t)data[pos++] << (i * 8);` — with
+`value_bytes = (bit_width + 7) / 8 > 4` (any width above 32) the fifth byte is shifted by 32 -/
+def readRunValuePreF80 (w : Nat) (bytes : List UInt8) : Except Fault Nat :=
+  if valueBytes w > 4 then .error (.shiftTooLarge (4 * 8))
+  else .ok (Bitpack.leNat (bytes.take (valueBytes w)) &&& valueMask w)
+
 end Carquet.Impl.RlePreFix
